@@ -59,6 +59,13 @@ fn kinds() -> Vec<(&'static str, &'static str)> {
         ("two_captured_locals_closed_by_return", "fn mk(prev) { var lower = prev; var peek = || lower; var upper = [i]; var c = || upper; return c; } var a = mk(chain); chain = a;"),
         ("two_captured_locals_closed_by_unwinding", "fn mk(prev) { var lower = prev; var peek = || lower; var upper = [i]; chain = || upper; throw [i]; } var a = nil; try { mk(chain); } catch e { a = e; }"),
         ("two_captured_locals_closed_by_return_through_finally", "fn mk(prev) { var lower = prev; var peek = || lower; var upper = [i]; try { return || upper; } finally { lower = [prev]; } } var a = mk(chain); chain = a;"),
+        // a closure made inside a fiber over a local of that fiber, kept after the fiber ended; the fiber
+        // had the previous round's closure on its stack (its parameter): the kept closure must not keep the
+        // dead fiber, or what lay on its stack, alive
+        ("closure_made_in_a_fiber_that_ended", "var a = Fiber.new(|prev| { var hold = prev; var mine = [i]; return || mine; }).call(chain); chain = a;"),
+        // (a fiber left suspended is kept by a closure over one of its locals - the variable lives on its
+        // stack - and goes when that closure goes)
+        ("closure_made_in_a_fiber_left_suspended", "var fb = Fiber.new(|| { var mine = [i]; chain = || mine; Fiber.yield(1); return 2; }); fb.call(); var a = chain;"),
         ("return_given_up_by_break_in_finally", "fn giveup() { for k in 0..2 { try { return [i, [k]]; } finally { break; } } return [i]; } var a = giveup();"),
     ]
 }
@@ -356,7 +363,7 @@ pub fn run(ctx: &Ctx) -> Report {
     report.cov("traces_validated_against_impl", json!(acc.events));
     report.cov("distinct_nontrivial", json!(n_progs));
     report.cov("exhaustive", json!(true));
-    report.cov("rule", json!("every loop program `for i in 0..n { body }` whose body is a multiset of one or two (three in the thorough tier) of 30 allocation kinds (incl. thrown objects caught, re-thrown through finally blocks, and given up because a finally block is left by break / continue), crossed with three live-set shapes (nothing kept, a ring of the last 4, a map under a rotating key), run in the optimised build: at every allocation event and every collection of the log the monitor checks (1) no allocation at or above the threshold without a collection, heap <= max(2 x survivors, 64 KiB) + that allocation; (2) threshold after a collection = 2 x survivors, a collection never grows the heap, accounting continuous between events; (3) a collection only when the threshold in effect was reached; at the end bytes_allocated = sum of live object sizes; after dropping the interpreter exactly a fresh interpreter's residue remains; n and 2n iterations leave the same live objects by type (interned strings and compiled code excluded), and so do two collections forced from inside the running loop at the end of iteration n and of iteration 2n; the objects left behind by keeping the closure from the bottom of a recursion do not depend on its depth (0, 1, 7, 39)."));
+    report.cov("rule", json!("every loop program `for i in 0..n { body }` whose body is a multiset of one or two (three in the thorough tier) of 32 allocation kinds (incl. thrown objects caught, re-thrown through finally blocks, and given up because a finally block is left by break / continue), crossed with three live-set shapes (nothing kept, a ring of the last 4, a map under a rotating key), run in the optimised build: at every allocation event and every collection of the log the monitor checks (1) no allocation at or above the threshold without a collection, heap <= max(2 x survivors, 64 KiB) + that allocation; (2) threshold after a collection = 2 x survivors, a collection never grows the heap, accounting continuous between events; (3) a collection only when the threshold in effect was reached; at the end bytes_allocated = sum of live object sizes; after dropping the interpreter exactly a fresh interpreter's residue remains; n and 2n iterations leave the same live objects by type (interned strings and compiled code excluded), and so do two collections forced from inside the running loop at the end of iteration n and of iteration 2n; the objects left behind by keeping the closure from the bottom of a recursion do not depend on its depth (0, 1, 7, 39)."));
     report.cov("bounds", json!({"iterations": [n1, n2], "kinds": kinds().len(), "live_set_shapes": 3}));
     report.cov("programs", json!(n_progs));
     report.cov("allocation_events_checked", json!(acc.events));
